@@ -103,6 +103,11 @@ def run(ctx):
             da = xarray.DataArray(tags, dims=list(gdims)).transpose(*dims)
         else:
             da = xarray.DataArray(tags, dims=list(gdims))
+        # range attributes describing the whole series this slice was cut from (they survive isel / other tools): the colours
+        # are scaled to the values actually plotted
+        if n % 2 == 0:
+            da.attrs.update({'actual_range': numpy.array([-50.0, 99999.0]), 'valid_min': -100.0, 'valid_max': 1e6,
+                             'valid_range': numpy.array([-100.0, 1e6])})
         ds['scalar'] = da
         how = rng.choice(['name', 'array'])
         arg = 'scalar' if how == 'name' else ds['scalar']
